@@ -105,10 +105,10 @@ theorem C20_valid_int (c : Cfg) (a : Arg) (hb : NotBool a) :
     ((step c (.sigFigsValue a)).2 = .ok ↔ DocPosInt a) ∧
     ((step c (.sigFigsError a)).2 = .ok ↔ DocPosInt a) ∧
     ((step c (.setMcSize a)).2 = .ok ↔ DocPosInt a) := by
-  have h := posInt_ok_iff a hb
+  have h := posInt_ok_iff 0 rfl a hb
   refine ⟨?_, ?_, ?_, ?_⟩ <;>
-  · simp only [step]
-    cases hp : posInt a <;> simp_all
+  · simp only [step, sigValLower_eq, mcSizeLower_eq]
+    cases hp : intArg 0 a <;> simp_all
 
 /-- **C20 (valid, plot dimensions).** accepted ⇔ a tuple of exactly two positive numbers
     (`nan` is not a positive number) -/
@@ -117,13 +117,13 @@ theorem C20_valid_plot (c : Cfg) (a : Arg) (hb : NoBoolInside a) :
   rcases a with s | l
   · simp [step, plotArg, DocPair]
   · match l with
-    | [] => simp [step, plotArg, DocPair]
-    | [x] => simp [step, plotArg, DocPair]
-    | x :: y :: z :: r => simp [step, plotArg, DocPair]
+    | [] => simp [step, plotArg, DocPair, Gen.plotLen]
+    | [x] => simp [step, plotArg, DocPair, Gen.plotLen]
+    | x :: y :: z :: r => simp [step, plotArg, DocPair, Gen.plotLen]
     | [x, y] =>
       have hx := numPos_ok_iff x (fun b h => hb [x, y] b rfl (by simp [h]))
       have hy := numPos_ok_iff y (fun b h => hb [x, y] b rfl (by simp [h]))
-      simp only [step, plotArg, DocPair]
+      simp only [step, plotArg, DocPair, Gen.plotLen, List.length_cons, List.length_nil, if_true]
       cases hpx : numPos x <;> cases hpy : numPos y <;> simp_all
       exact ⟨x, y, ⟨rfl, rfl⟩, hx, hy⟩
 
@@ -143,7 +143,7 @@ theorem C20_stored_int (c : Cfg) (z : Int) (hz : 0 < z) :
     (step c (.setSigVal (.scalar (.int z)))).1.sigVal = z ∧
     (step c (.sigFigsValue (.scalar (.int z)))).1.sigVal = z ∧
     (step c (.sigFigsError (.scalar (.int z)))).1.sigVal = z := by
-  simp [step, posInt, hz]
+  simp [step, intArg, hz, sigValLower_eq, mcSizeLower_eq]
 
 /-! ### one default -/
 
@@ -181,19 +181,19 @@ theorem C20_wf_step (c : Cfg) (op : Op) (h : WF c) : WF (step c op).1 := by
     · exact ⟨h1, h2, h3, h4, h5, h6, h7, h8⟩
   case setSigVal a =>
     split
-    · rename_i z hz; exact ⟨h1, h2, h3, h4, posInt_pos _ _ hz, h6, h7, h8⟩
+    · rename_i z hz; exact ⟨h1, h2, h3, h4, posInt_pos _ sigValLower_eq _ _ hz, h6, h7, h8⟩
     · exact ⟨h1, h2, h3, h4, h5, h6, h7, h8⟩
   case sigFigsValue a =>
     split
-    · rename_i z hz; exact ⟨h1, h2, h3, sigModeIdx_lt.1, posInt_pos _ _ hz, h6, h7, h8⟩
+    · rename_i z hz; exact ⟨h1, h2, h3, sigModeIdx_lt.1, posInt_pos _ sigValLower_eq _ _ hz, h6, h7, h8⟩
     · exact ⟨h1, h2, h3, h4, h5, h6, h7, h8⟩
   case sigFigsError a =>
     split
-    · rename_i z hz; exact ⟨h1, h2, h3, sigModeIdx_lt.2, posInt_pos _ _ hz, h6, h7, h8⟩
+    · rename_i z hz; exact ⟨h1, h2, h3, sigModeIdx_lt.2, posInt_pos _ sigValLower_eq _ _ hz, h6, h7, h8⟩
     · exact ⟨h1, h2, h3, h4, h5, h6, h7, h8⟩
   case setMcSize a =>
     split
-    · rename_i z hz; exact ⟨h1, h2, h3, h4, h5, posInt_pos _ _ hz, h7, h8⟩
+    · rename_i z hz; exact ⟨h1, h2, h3, h4, h5, posInt_pos _ mcSizeLower_eq _ _ hz, h7, h8⟩
     · exact ⟨h1, h2, h3, h4, h5, h6, h7, h8⟩
   case setPlotDims a =>
     split
@@ -232,18 +232,18 @@ theorem C20_temp_restored {ρ : Type} (raised : ρ → Bool) (k : Int) (hk : 0 <
     withTempMc raised (.scalar (.int k)) f c =
       ({ (f { c with mcSize := k }).1 with mcSize := c.mcSize },
        some (f { c with mcSize := k }).2) := by
-  simp [withTempMc, step, posInt, hk, hc, Gen.tempRestoreInFinally]
+  simp [withTempMc, step, intArg, mcSizeLower_eq, hk, hc, Gen.tempRestoreInFinally]
 
 /-- **C20 (override restored, returning and raising).** Whatever the wrapped computation does and
     however it ends, and whatever size was requested (valid or not), the sample size after the
     call is the one before the call. -/
 theorem C20_temp_size_restored {ρ : Type} (raised : ρ → Bool) (k : Arg) (f : Cfg → Cfg × ρ)
     (c : Cfg) (hc : 0 < c.mcSize) : (withTempMc raised k f c).1.mcSize = c.mcSize := by
-  cases hs : posInt k with
+  cases hs : intArg Gen.mcSizeLower k with
   | none => simp [withTempMc, step, hs]
   | some z =>
     simp only [withTempMc, step, hs]
-    simp [posInt, hc, Gen.tempRestoreInFinally]
+    simp [intArg, mcSizeLower_eq, hc, Gen.tempRestoreInFinally]
 
 /-- **C20 (override nesting is LIFO).** An override `k2` nested in the body of an override `k1`:
     the inner computation sees `k2`, the rest of the outer body sees `k1` again, and after the
